@@ -321,6 +321,29 @@ def check_conll_deps(heads, tree_dec, t, diff):
     rec(t, 0)
 
 
+# ---- replayable form of a derivation --------------------------------------------------------------
+def ser_tree(t):
+    if t.is_leaf:
+        return {'cat': str(t.cat), 'token': dict(t.token), 'op': [t.op_string, t.op_symbol]}
+    return {'cat': str(t.cat), 'op': [t.op_string, t.op_symbol], 'head_is_left': bool(t.head_is_left), 'children': [ser_tree(c) for c in t.children]}
+
+
+def unser_tree(d, tokens=None):
+    """tokens: per-sentence cache so that the n-best trees of a sentence share their Token objects"""
+    from depccg.tree import Tree
+    from depccg.types import Token
+    from depccg.cat import Category
+    cat = Category.parse(d['cat'])
+    if 'children' not in d:
+        return Tree(cat, [Token(**d['token'])], d['op'][0], d['op'][1])
+    return Tree(cat, [unser_tree(c) for c in d['children']], d['op'][0], d['op'][1], d['head_is_left'])
+
+
+def unser_batch(b):
+    from depccg.tree import ScoredTree
+    return [[ScoredTree(unser_tree(t), s) for t, s in trees] for trees in b]
+
+
 # ---- one batch through all formats --------------------------------------------------------------------
 def check_batch(batch, lang, report, count, formats=FORMATS, to_string=None, on_record=None):
     """batch: [[ScoredTree,...],...]; report(kind, desc, data); count(key); on_record(fmt, tree) for every record decoded and compared.
@@ -332,8 +355,7 @@ def check_batch(batch, lang, report, count, formats=FORMATS, to_string=None, on_
     shape = [len(trees) for trees in batch]
 
     def describe():
-        from gen import tree_sig
-        return {'lang': lang, 'shape': shape, 'trees': [repr(tree_sig(t)) for _, _, t, _ in recs]}
+        return {'lang': lang, 'shape': shape, 'batch': [[[ser_tree(st.tree), st.score] for st in trees] for trees in batch]}
 
     for fmt in formats:
         def fail(kind, desc, extra=None):
